@@ -3,8 +3,12 @@ package main
 import (
 	"encoding/binary"
 	"encoding/hex"
+	"fmt"
 	"math/big"
+	"strings"
 
+	"github.com/zenon-network/go-zenon/chain/nom"
+	"github.com/zenon-network/go-zenon/common/types"
 	"github.com/zenon-network/go-zenon/pow"
 	"github.com/zenon-network/go-zenon/vm"
 )
@@ -91,6 +95,11 @@ func init() {
 			c.Emit("fused-plasma %s | %d", a.String(), vm.FussedAmountToPlasma(a))
 			c.Hit("fused-plasma")
 		}
+		// the PoW check as a function of (data hash, nonce, difficulty) ONLY: sessions of checks through the real
+		// pow.CheckPoWNonce in which the same (address, previous hash, nonce) comes back under other difficulties
+		for i := 0; i < c.N/50+20; i++ {
+			powSession(c, i)
+		}
 		for i := 0; i < c.N/4+1; i++ {
 			p := randU64(c)
 			if c.R.Intn(2) == 0 {
@@ -129,6 +138,168 @@ func powCase(c *Ctx, d uint64) {
 		want := new(big.Int).Sub(x, y).Uint64()
 		if binary.LittleEndian.Uint64(t[:]) != want {
 			c.Fail("pow target for d=%d is %d, statement threshold 2^64-2^64/d = %d", d, binary.LittleEndian.Uint64(t[:]), want)
+		}
+	}
+}
+
+// powCritical: the largest difficulty the hash prefix h8 meets (statement: LE64(h8) >= 2^64 - 2^64/d), found by the
+// harness's own arithmetic: d <= 2^64 / (2^64 - v) up to rounding, corrected by direct evaluation.
+func powCritical(h8 [8]byte) uint64 {
+	v := binary.LittleEndian.Uint64(h8[:])
+	x := new(big.Int).Lsh(big.NewInt(1), 64)
+	gap := new(big.Int).Sub(x, new(big.Int).SetUint64(v)) // 1 ... 2^64
+	q := new(big.Int).Quo(x, gap)
+	if !q.IsUint64() {
+		return 1<<64 - 1
+	}
+	d := q.Uint64()
+	if d == 0 {
+		d = 1
+	}
+	for d < 1<<64-1 && powMeets(h8, d+1) {
+		d++
+	}
+	for d > 1 && !powMeets(h8, d) {
+		d--
+	}
+	return d
+}
+
+type powInput struct {
+	addr  types.Address
+	prev  types.Hash
+	nonce [8]byte
+	h8    [8]byte
+	asked []string // history of the queries on this input: "d=answer"
+}
+
+// powSession: 1-4 inputs (address, previous hash, nonce), each asked under a list of difficulties built around the
+// largest difficulty its hash really meets (d*-1, d*, d*+1, 2d*), the trivial claims 1 and 2, the difficulties a block
+// needs for its base cost / the cap, and random ones - in ascending order (a cheap claim first, the expensive one later),
+// in descending order, shuffled, every query possibly repeated, the inputs interleaved. Every single answer goes to the
+// model (pow-check) and to the monitor; the whole session goes to the model's checkSeq (pow-seq).
+func powSession(c *Ctx, id int) {
+	nIn := 1 + c.R.Intn(4)
+	if id%3 == 0 {
+		nIn = 1
+	}
+	ins := make([]*powInput, nIn)
+	type query struct {
+		in *powInput
+		d  uint64
+	}
+	var plan [][]query
+	for k := range ins {
+		in := &powInput{}
+		c.R.Read(in.addr[:])
+		in.addr[0] = 0
+		if c.R.Intn(3) != 0 {
+			c.R.Read(in.prev[:])
+		}
+		// nonces: random, or searched a little so that the hash meets some non-trivial difficulty (2^4 ... 2^14)
+		c.R.Read(in.nonce[:])
+		data := powDataHash(in.addr, in.prev)
+		if c.R.Intn(2) == 0 {
+			if nn, _, ok := powMine(data, uint64(1)<<uint(4+c.R.Intn(11)), 1<<20); ok {
+				in.nonce = nn
+			}
+		}
+		in.h8 = powH8(data, in.nonce)
+		ins[k] = in
+		dc := powCritical(in.h8)
+		ds := []uint64{1, 2, dc, dc + 1, 21000 * 1500, 94500 * 1500}
+		if dc > 1 {
+			ds = append(ds, dc-1)
+		}
+		if dc < 1<<62 {
+			ds = append(ds, 2*dc, 2*dc+1)
+		}
+		for j := c.R.Intn(4); j > 0; j-- {
+			ds = append(ds, randU64(c))
+		}
+		if c.R.Intn(3) == 0 {
+			ds = append(ds, 0)
+		}
+		switch (id + k) % 4 {
+		case 0: // low -> high
+			sortU64(ds, false)
+		case 1: // high -> low
+			sortU64(ds, true)
+		case 2: // the trivial claim first, then everything else shuffled
+			c.R.Shuffle(len(ds), func(a, b int) { ds[a], ds[b] = ds[b], ds[a] })
+			ds = append([]uint64{1}, ds...)
+		default:
+			c.R.Shuffle(len(ds), func(a, b int) { ds[a], ds[b] = ds[b], ds[a] })
+		}
+		var qs []query
+		for _, d := range ds {
+			qs = append(qs, query{in, d})
+			if c.R.Intn(4) == 0 {
+				qs = append(qs, query{in, d}) // asked twice in a row
+			}
+		}
+		// ... and the first few once more at the end
+		for j := 0; j < 3 && j < len(ds); j++ {
+			qs = append(qs, query{in, ds[j]})
+		}
+		plan = append(plan, qs)
+	}
+	// interleave the per-input plans (order within an input preserved)
+	var session []query
+	for {
+		var live []int
+		for k := range plan {
+			if len(plan[k]) > 0 {
+				live = append(live, k)
+			}
+		}
+		if len(live) == 0 {
+			break
+		}
+		k := live[c.R.Intn(len(live))]
+		session = append(session, plan[k][0])
+		plan[k] = plan[k][1:]
+	}
+	var qtoks []string
+	var answers strings.Builder
+	for _, q := range session {
+		b := &nom.AccountBlock{Address: q.in.addr, PreviousHash: q.in.prev, Difficulty: q.d}
+		b.Nonce.Data = q.in.nonce
+		got := pow.CheckPoWNonce(b)
+		c.Emit("pow-check %s %d | %v", hex.EncodeToString(q.in.h8[:]), q.d, got)
+		qtoks = append(qtoks, fmt.Sprintf("%s:%d", hex.EncodeToString(q.in.h8[:]), q.d))
+		if got {
+			answers.WriteByte('t')
+			c.Hit("pow-check-true")
+		} else {
+			answers.WriteByte('f')
+			c.Hit("pow-check-false")
+		}
+		// model-free monitor: the statement's comparison, whatever was asked before
+		if want := powMeets(q.in.h8, q.d); got != want {
+			c.Fail("C12: CheckPoWNonce(address=%s previous=%s nonce=%x difficulty=%d) = %v, but the hash prefix %x (= %d) compared with the threshold 2^64-2^64/d = %d says %v; earlier checks of the same (address, previous, nonce) in this process: [%s]",
+				q.in.addr, q.in.prev, q.in.nonce, q.d, got, q.in.h8, binary.LittleEndian.Uint64(q.in.h8[:]), powThreshold(maxU64(q.d, 1)), want, strings.Join(q.in.asked, " "))
+		}
+		if len(q.in.asked) > 0 {
+			c.Hit("pow-check-after-earlier-check-of-same-input")
+		}
+		q.in.asked = append(q.in.asked, fmt.Sprintf("d=%d:%v", q.d, got))
+	}
+	c.Emit("pow-seq %s | %s", strings.Join(qtoks, ","), answers.String())
+	c.Hit("pow-session")
+}
+
+func maxU64(a, b uint64) uint64 {
+	if a > b {
+		return a
+	}
+	return b
+}
+
+func sortU64(ds []uint64, desc bool) {
+	for i := 1; i < len(ds); i++ {
+		for j := i; j > 0 && ((!desc && ds[j] < ds[j-1]) || (desc && ds[j] > ds[j-1])); j-- {
+			ds[j], ds[j-1] = ds[j-1], ds[j]
 		}
 	}
 }
